@@ -814,6 +814,16 @@ func (v *FnVC) ret(x *ssa.Return) {
 			v.oblige("ensures", v.clauseLabel(cl, k-1, j)+site, t, cl.Props, true, c.String(), x.Pos())
 		}
 	}
+	if v.fc.NoAlloc {
+		props := v.fc.NoAllocProps
+		if len(props) == 0 {
+			props = v.fc.Props
+		}
+		v.behavClause = false
+		v.ensureNextref()
+		v.init("nextref")
+		v.oblige("noalloc", strings.TrimPrefix(site, "@"), fmt.Sprintf("(= %s |nextref@0|)", v.get("nextref")), props, true, "the function allocates nothing (allocation pointer unchanged)", x.Pos())
+	}
 	v.frameCheck(site)
 }
 
